@@ -54,6 +54,9 @@ def announce_watchdog(
 ) -> bool:
     async def callback(name: str) -> None:
         for neighbor_name in reactor.configuration.neighbors.keys():
+            # only the neighbors the command selects ('peer <selector> ...', or the peers of the process)
+            if neighbor_name not in peers:
+                continue
             neighbor = reactor.configuration.neighbors.get(neighbor_name, None)
             if not neighbor:
                 continue
@@ -72,6 +75,9 @@ def withdraw_watchdog(
 ) -> bool:
     async def callback(name: str) -> None:
         for neighbor_name in reactor.configuration.neighbors.keys():
+            # only the neighbors the command selects ('peer <selector> ...', or the peers of the process)
+            if neighbor_name not in peers:
+                continue
             neighbor = reactor.configuration.neighbors.get(neighbor_name, None)
             if not neighbor:
                 continue
